@@ -47,7 +47,9 @@ def gen_single(rng, idx):
         n = nr()
         return req_for(app, n, kind or rng.choice(KINDS), n if p is None else p)
     kind = ['alternating', 'nested', 'nested2', 'copy', 'construct', 'mixed', 'mapped', 'mapped-nested',
-            'copyhdr', 'helpers', 'idle'][idx % 11]
+            'copyhdr', 'helpers', 'idle', 'mutate'][idx % 12]
+    if kind == 'mutate':
+        return gen_mutate(rng, idx)
     if kind == 'helpers':
         return gen_helpers(rng, idx)
     if kind == 'idle':
@@ -124,7 +126,7 @@ def gen_helpers(rng, idx):
     """a handler calls another application whose handler leaves through redirect() / abort() / a raised
     HTTPResponse; the default application in the outer and in the inner role, also through a third
     application; the outer handler reads its response before and after"""
-    v = (idx // 11) % 6
+    v = (idx // 12) % 6
     n = [0]
 
     def rq(app, kind='status', **kw):
@@ -173,6 +175,44 @@ def gen_helpers(rng, idx):
     return 'helpers', case
 
 
+def gen_mutate(rng, idx):
+    """one application's handler changes in place every object the framework hands it (and answers an
+    unlisted status code with its own reason phrase); the other applications - same static route, same raw
+    query string / Cookie header / body - must see what their own request carries: alternating, nested,
+    with the default application, with an application created in the middle of a request, both orders"""
+    v = (idx // 12) % 6
+    apps = [[0, 2], [1, 2], [2, 0], [0, 1, 2], [1, 2], [2, 1]][v]
+    a, b = apps[0], apps[1]
+
+    def rq(app, kind):
+        return req_for(app, 900, kind, 1)
+    rd = 'reader' if idx % 2 else 'reader799'
+    if v in (0, 1, 2):       # alternating, both orders
+        items = [('serve', rq(b, rd)), ('serve', rq(a, 'mutator')), ('serve', rq(b, rd)), ('serve', rq(a, 'reader')),
+                 ('serve', rq(b, 'mutator')), ('serve', rq(a, rd))]
+        init = list(apps)
+    elif v == 3:             # nested: the mutator calls a reader, which calls a reader of a third application
+        inner = with_ops(rq(b, 'reader'), [], [('nested', rq(apps[2], rd))])
+        outer = with_ops(rq(a, 'mutator'), [], [('nested', inner), ('rdstatus',)])
+        items = [('serve', outer), ('serve', rq(apps[2], 'reader')), ('serve', rq(b, rd))]
+        init = list(apps)
+    elif v == 4:             # a reader calls the mutator in the middle and goes on reading
+        outer = with_ops(rq(a, 'reader'), [('dump', 'query')], [('nested', rq(b, 'mutator'))])
+        outer['ops'] = [('dump', 'query'), ('dump', 'cookies'), ('nested', rq(b, 'mutator'))] + rq(a, 'reader')['ops']
+        items = [('serve', outer), ('serve', rq(a, rd))]
+        init = list(apps)
+    else:                    # an application created in the middle of the mutator's request, then read
+        new = 4
+        outer = with_ops(rq(a, 'mutator'), [], [('construct', new)])
+        items = [('serve', outer), ('serve', rq(new, rd)), ('serve', rq(b, 'reader')), ('serve', rq(new, 'mutator')),
+                 ('serve', rq(a, rd))]
+        init = list(apps)
+    case = dict(apps=init, threads={1: items}, switches=[])
+    # (no hooks: a hook that reads an accessor after the handler changed it would see the change, rightly)
+    case['cfg'] = {x: CFGS[rng.choice(['plain', 'debug', 'custom'])] for x in sorted(set(tsconc.case_apps(case)))}
+    return 'mutate', case
+
+
 def gen_idle(rng, idx):
     """idle request objects: every Ombott() gives its request a fresh environ; storing through one
     application's idle request must not show in another's (single thread; the worker constructs)"""
@@ -198,7 +238,7 @@ def pick_cfgs(rng, case):
 
 
 THREAD_ARR = ['serve', 'construct', 'copy', 'nested', 'default-nested', 'three', 'mapped', 'mapped-default',
-              'copyhdr']
+              'copyhdr', 'mutate', 'mutate-default']
 
 
 def gen_threads(rng, idx):
@@ -230,6 +270,13 @@ def gen_threads(rng, idx):
         partner = {'badjson': 'badmultipart', 'badmultipart': 'badjson', 'toolarge': 'toolarge'}[ek]
         r2 = with_ops(req_for(2, 2, rng.choice([partner, partner, ek, 'crashjson']), 2), own_marks(2), [])
         case = dict(apps=[a0, 2], threads={1: [('serve', r1)], 2: [('serve', r2)]})
+    elif kind in ('mutate', 'mutate-default'):
+        # one application mutates what it is handed while another one, on another thread, reads
+        a0 = 0 if kind == 'mutate-default' else a
+        first, second = ('mutator', rng.choice(['reader', 'reader799'])) if rng.random() < .5 else \
+            (rng.choice(['reader', 'reader799']), 'mutator')
+        case = dict(apps=[a0, 2], threads={1: [('serve', req_for(a0, 900, first, 1)), ('serve', req_for(a0, 900, 'reader', 1))],
+                                          2: [('serve', req_for(2, 900, second, 1))]})
     elif kind == 'copyhdr':
         r1 = with_ops(req_for(a, 1, 'copyhdr', 1), own_marks(1), READBACK)
         r2 = with_ops(req_for(2, 2, 'copyhdr', 2), [], [('nested', req_for(3, 3, 'copyhdr', 3)), ('header', 'X-K')])
@@ -240,6 +287,8 @@ def gen_threads(rng, idx):
                                             3: [('serve', with_ops(req_for(3, 3, 'cookies', 3), [('copy',)], READBACK))]})
     case['switches'] = []
     case['cfg'] = pick_cfgs(rng, case)
+    if kind.startswith('mutate'):
+        case['cfg'] = {x: CFGS[rng.choice(['plain', 'debug', 'custom'])] for x in case['cfg']}
     return 'threads-' + kind, case
 
 
@@ -303,6 +352,9 @@ def solo_for(case, a, cache):
 
 
 def check_case(name, case, w, cache):
+    sh = w.shared_handouts()
+    if sh:
+        return (name + ':shared-object', 'the framework handed the SAME object to two different requests: %r' % (sh,))
     apps = sorted(set(tsconc.case_apps(case)))
     for a in apps:
         if a in (case.get('skip_apps') or ()):
@@ -408,7 +460,9 @@ class C10(Check):
             'cross-thread, default app), inner handlers leaving through redirect() / abort() / a raised HTTPResponse with the '
             'default app outside and inside (also through a third application) while the outer handler reads its '
             'response before and after, idle request objects (construct / store through one idle request / inspect '
-            'all); single thread, and 2-3 threads under the baton scheduler with every single '
+            'all), one application mutating in place everything it is handed while others (same static route, same raw '
+            'inputs; default app, nested, app created mid-request, other thread, custom 799 phrase in both orders) read, '
+            'with an identity check of the handed-out objects; single thread, and 2-3 threads under the baton scheduler with every single '
             'preemption point of thread 1 plus random multi-preemption schedules; every application is compared with '
             'the run in which the others\' operations (and its own copies) are deleted, computed in a forked child of '
             'the untouched process; non-trivial = more than one application takes part')
@@ -437,10 +491,10 @@ class C10(Check):
     def _jobs(self, rng, n):
         seed = rng.randrange(1 << 30)
         jobs = []
-        nsingle = 132 * n
+        nsingle = 144 * n
         for lo in range(0, nsingle, 20):
             jobs.append(('single', seed, lo, lo + 20))
-        nthr = 12 * n
+        nthr = 11 * n
         for i in range(nthr):
             jobs.append(('threads', seed, i, i + 1))
         return jobs
